@@ -207,13 +207,17 @@ def _drive_and_judge(ctx, sfile, nvec, tag, sample_runs):
     return runs, summ
 
 
+_RES = '"res":{"k":"'
+
+
 def _nontrivial(prop, line):
     combin = '"a":{' in line or '"s":{' in line       # the term has a child, i.e. at least one combinator node
     if prop == "C11":
-        # a combinator over leaves with an error path taken or a delayed completion
-        return combin and ('"r":"err"' in line or '"k":"pending"' in line)
-    # C12: some root poll answered Pending or an error (antecedents of the waker / propagation clauses)
-    return combin and ('"k":"pending"' in line or '"k":"err"' in line)
+        # the run ends on an error path: a call error short-circuited / mapped through combinators, or an init error
+        k = line.rfind(_RES)
+        return combin and k >= 0 and line.startswith("err", k + len(_RES))
+    # C12: some root poll (poll_ready, response future, factory future) answered Pending
+    return combin and (_RES + "pending") in line
 
 
 RULES = {
@@ -221,11 +225,11 @@ RULES = {
             "operational machine, for EVERY term of depth <= 2 (readiness and completion scripts varied in separate "
             "runs at depth 2, full product at depth 1; thorough: full product at depth 2 with k<=1 and seeded random "
             "terms of depth 3); each is executed on the real combinators. non-trivial = distinct vector whose term has at "
-            "least one combinator node and in which a leaf fails (error path / short-circuit / init error) or a root "
-            "poll is Pending (delayed completion)"),
+            "least one combinator node and whose run ends with an error (a call error short-circuited / mapped through "
+            "the combinators, or a factory init error)"),
     "C12": ("same vectors as C11; non-trivial = distinct vector whose term has at least one combinator node and in which "
-            "some root poll (poll_ready, response future or factory future) answers Pending or an error, i.e. the waker "
-            "and propagation clauses have an antecedent"),
+            "some root poll (poll_ready, response future or factory future) answers Pending, i.e. the no-lost-wake-up "
+            "clause has an antecedent"),
 }
 
 
